@@ -49,7 +49,7 @@ func r06ab(c *an.Ctx) {
 	})
 	triggers := an.CallsNamed(fn, "(*core/task.Manager).TriggerHooks")
 	callAll := an.CallsNamed(fn, "(core/workflow/callable.Calls).CallAll")
-	cancel := an.CallsNamed(fn, "(*core/environment.Manager).cancelCallsPendingAwait")
+	cancel := an.CallsTo(fn, c.Fn("core/environment", "Manager.cancelCallsPendingAwait"))
 	var done, unlist ssa.Instruction
 	for _, ci := range an.CallsNamed(fn, "(*core/environment.Environment).setState") {
 		if s, ok := an.ConstString(ci.Common().Args[1]); ok && s == "DONE" {
